@@ -462,6 +462,12 @@ def start_race(decisions, npeers=2, dial="ok"):
             problems.append((f"start-raised/{type(w.start_box['exc']).__name__}", repr(w.start_box["exc"])))
         for sig, d in W.monitor_threads(w):
             problems.append((f"thread-died/{sig}", d))
+        if isinstance(dial, (list, tuple)):
+            # every dial fails at once (ENETUNREACH): nothing stays behind, and the peers are dialled again later
+            w.advance(2)
+            left = [s_ for s_ in w.net.open_sockets() if s_ not in (w.node.tcp_sockets or [])]
+            if len(left) > len(w.node.tcp_sockets):
+                problems.append(("sockets-left-after-failed-dial", f"{left[:4]}"))
         dialled = {a[0] for _, a, _ in w.net.connect_calls}
         if dialled != {f"10.1.1.{i + 1}" for i in range(npeers)}:
             problems.append(("not-dialled", f"persistent peers dialled at start: {sorted(dialled)}"))
@@ -484,7 +490,7 @@ def schedule_part(rec, shard, nshards, thorough):
     info = install_points("start")
     if shard == 0:
         rec.extra["preemption_functions_start"] = info
-    for npeers, dial in ((2, "ok"), (3, "ok"), (1, "inprogress")):
+    for npeers, dial in ((2, "ok"), (3, "ok"), (1, "inprogress"), (2, ["sync-error", 101])):
         holder_s = {}
 
         def run_start(dec, npeers=npeers, dial=dial):
@@ -493,12 +499,13 @@ def schedule_part(rec, shard, nshards, thorough):
             return tr
         ns = 0
         for dec, trace in sched.enumerate_schedules(run_start, (5 if thorough else 4) - max(npeers, 2), shard, nshards):
+            dial_name = dial if isinstance(dial, str) else "sync-error"
             case = {"start_race": npeers, "dial": dial, "schedule": {str(i): c for i, c in sorted(dec.items())}}
             for kind, detail in holder_s["last"]:
                 rec.violation(f"C12/start-race/{kind}", case, detail)
             ns += 1
-            rec.case(fp("start", npeers, dial, tuple(sorted(dec.items()))) if dec else None,
-                     ["start-race-schedule", f"start-race:dial-{dial}", f"deviations:{len(dec)}"], sample=lambda: dict(case, choice_points=len(trace)))
+            rec.case(fp("start", npeers, dial_name, tuple(sorted(dec.items()))) if dec else None,
+                     ["start-race-schedule", f"start-race:dial-{dial_name}", f"deviations:{len(dec)}"], sample=lambda: dict(case, choice_points=len(trace)))
         rec.extra["start_race_schedules"] = rec.extra.get("start_race_schedules", 0) + ns
     install_points("cea-fin")
     holder_c = {}
@@ -726,7 +733,7 @@ def run(tier, scale=1.0):
     rec = Recorder(PID)
     for d in hyp.pool_run(shard_main, (tier, scale)):
         rec.merge(d)
-    required = {"cea-then-fin-schedule": 1, "start-race:dial-inprogress": 1, "dpr-vs-watchdog-schedule": 1, "dpr-vs-watchdog:dwr-sent:1": 1, "start-race-schedule": 1, "other-peer-busy": 1, "second-connection-by-the-peer": 1, "identity:respelled": 1, "stop-race-schedule": 1, "persistent:True": 1, "persistent:False": 1, "always:True": 1, "addr:False": 1, "losses:2": 1,
+    required = {"start-race:dial-sync-error": 1, "cea-then-fin-schedule": 1, "start-race:dial-inprogress": 1, "dpr-vs-watchdog-schedule": 1, "dpr-vs-watchdog:dwr-sent:1": 1, "start-race-schedule": 1, "other-peer-busy": 1, "second-connection-by-the-peer": 1, "identity:respelled": 1, "stop-race-schedule": 1, "persistent:True": 1, "persistent:False": 1, "always:True": 1, "addr:False": 1, "losses:2": 1,
                 "dpr-on-ready": 1, "dwa-event": 1, "dwr-outstanding-at-dpr": 1, "reason-dpr": 1, "dials:3": 1, "loss:sync-refused": 1, "loss:cea-timeout": 1}
     return finish(rec, tier=tier, level="exploration", rule=RULE, assumptions=ASSUME, t0=t0,
                   required_classes=required)
